@@ -16,7 +16,7 @@ ASSUMPTIONS = ["the simulated matrices are observed by wrapping permute.irr.comp
                "float results compared with exact Q at 1e-12; floats that are correctly rounded small-denominator rationals are decoded with limit_denominator(10^6)"]
 
 
-def cases(tier, rng, dist):
+def _cases(tier, rng, dist):
     maxNs = 3 if tier == "quick" else 4
     for R in range(2, 5):
         for Ns in range(1, maxNs + 1):
@@ -63,7 +63,7 @@ def exact_ts(m):
 OV = {"none": None, "zero_int": 0, "zero_float": 0.0, "half": 0.5, "one": 1, "big": 7.25}
 
 
-def run(c):
+def _run(c):
     if c["f"] == "ts":
         dt = {"int": np.int64, "float": float, "bool": bool}[c["dtype"]]
         if c.get("big"):
@@ -235,3 +235,39 @@ def generated(tier):
     """source-derived obligations (G4 formulas): regenerated from /repo's current source text on every run"""
     from ..translate.tables import obligations
     return obligations("C18")
+
+
+# ---- failure paths (round 12): every third case is preceded by calls that the library rejects, or that fail inside a user
+# callable; they raise on the unchanged tree and must leave nothing behind (common.fail_first) ----
+
+def failing_calls(c):
+    k = c["ff"] % 4
+    big = np.array([[1, 0, 1, 1, 0, 1, 0, 0, 1, 1, 0, 1]] * 3 + [[0, 1, 1, 0, 0, 1, 1, 0, 1, 0, 0, 1]] * 4)      # 7 x 12
+    class Dying(np.random.RandomState):
+        n_ = 0
+        def _tick(self):
+            Dying.n_ += 1
+            if Dying.n_ > 5:
+                Dying.n_ = 0; raise Abort()
+        def random(self, *a, **kw): self._tick(); return np.random.RandomState.random_sample(self, *a, **kw)
+        def random_sample(self, *a, **kw): self._tick(); return np.random.RandomState.random_sample(self, *a, **kw)
+        def shuffle(self, *a, **kw): self._tick(); return np.random.RandomState.shuffle(self, *a, **kw)
+        def permutation(self, *a, **kw): self._tick(); return np.random.RandomState.permutation(self, *a, **kw)
+        def randint(self, *a, **kw): self._tick(); return np.random.RandomState.randint(self, *a, **kw)
+    return [[("simulate_ts_dist, num_perm given as a float", lambda: irr.simulate_ts_dist(big, num_perm=1e2, keep_dist=True, seed=5)),
+             ("simulate_ts_dist, num_perm given as a string", lambda: irr.simulate_ts_dist(big, num_perm="100", seed=5)),
+             ("simulate_ts_dist, generator fails in the loop", lambda: irr.simulate_ts_dist(big, num_perm=50, seed=Dying(3))),
+             ("simulate_ts_dist, generator fails in the loop (keep_dist)", lambda: irr.simulate_ts_dist(big, num_perm=50, keep_dist=True, seed=Dying(3)))][k],
+            ("compute_ts on a 1-d array", lambda: irr.compute_ts(np.array([1, 0, 1])))]
+
+
+def cases(tier, rng, dist):
+    return mark_ff(_cases(tier, rng, dist))
+
+
+def run(c):
+    ff = fail_first(failing_calls(c)) if "ff" in c else None
+    o = _run(c)
+    if ff is not None and isinstance(o, dict):
+        o["ff"] = ff
+    return o
